@@ -316,7 +316,8 @@ Section Top.
     match res with
     | inl r => exists st', out = (st', None) /\ Inv (c_fs st') (xr_view r) /\ strict (c_fs st') (xr_view r) /\
                            rev (c_notifs st') = xr_notifs r /\ c_stale st' = false /\
-                           mk_timed (c_fs st') (xr_view r) /\ exists cr, G (xr_view r) cr
+                           mk_timed (c_fs st') (xr_view r) /\ (exists cr, G (xr_view r) cr) /\
+                           x_isdir (xr_view r []) = true
     | inr xe => exists st' e, out = (st', Some e) /\ err_cls e = xerr_cls xe /\ c_stale st' = false /\
         match xe with
         | XConflict _ p bef => exists X', Inv (c_fs st') X' /\ strict (c_fs st') X' /\ X' p = bef /\ bef <> None
@@ -386,7 +387,7 @@ destruct (ensure_arg dst) as [|c0 e0] eqn:Een.
       destruct (fix_created_ok (cr1 ++ cr2) st2 (xr_view r) I2 G2) as (J1 & J2 & (J3 & J4 & J5) & J6).
       unfold top_ok. cbn [xr_view xr_notifs]. eexists. split; [reflexivity|]. split; auto. split; auto.
       split; [rewrite J4, N2, N1; unfold st0; cbn [c_notifs]; rewrite app_nil_r, rev_involutive; reflexivity|].
-      split; [rewrite J5, S2, S1; auto|eauto].
+      split; [rewrite J5, S2, S1; auto|]. split; eauto.
     - destruct HS as (st2 & e & cr2 & E2 & C2 & S2 & K2). rewrite E2.
       unfold top_ok. eexists; eexists. split; [reflexivity|]. split; auto.
       destruct xe as [cls p bef| |].
